@@ -190,6 +190,43 @@ def run_case(case: Dict[str, Any]) -> Dict[str, Any]:
                     if d:
                         viol.append({"key": ident + "|repeated_call_differs", "msg": f"{label}: call {k + 1} differs in {d}"})
                         break
+                # ---- re-trace histories on the final module: a no-grad call, a call after ANOTHER
+                # transformed module ran (it resets TorchDynamo), and a call with a new batch size
+                with torch.no_grad(), mock.patch.object(torch, "randint", pinned_randint):
+                    y_ng = cur(*[a.clone() for a in inp])
+                if not torch.equal(y_ng, outs[0][0]) and final != "compile":
+                    viol.append({"key": ident + "|no_grad_call_differs", "msg": label})
+                other_prog = dict(FAMILIES["mlp"], first="x")
+                other, _ = build(other_prog, case["seed"] + 1)
+                call(T.simulate_fp8(other), inputs(other_prog, case["seed"]))
+                d = same(call(cur, inp), outs[0], 2e-4 if final == "compile" else 0.0)
+                if d:
+                    viol.append({"key": ident + "|call_after_other_module_differs", "msg": f"{label}: {d}"})
+                g3 = torch.Generator().manual_seed(4242)
+                inp3 = tuple(torch.randn((3,) + tuple(a.shape[1:]), generator=g3) if a.is_floating_point() else a for a in inp)
+                m3, _ = build(prog, case["seed"])
+                fresh = m3
+                for t in chain:
+                    fresh = apply(fresh, t)
+                exp3 = call(fresh, inp3)
+                d = same(call(cur, inp3), exp3, 2e-4 if final == "compile" else 0.0)
+                if d:
+                    viol.append({"key": ident + "|new_batch_size_differs_from_fresh_chain", "msg": f"{label}: {d}"})
+                steps += 4
+                # ---- every INTERMEDIATE module of the chain still behaves like a fresh chain prefix
+                for i in range(1, len(chain)):
+                    mi = mods[i]
+                    if len(getattr(mi, "backends", [])) != i:
+                        viol.append({"key": ident + "|intermediate_backend_list_changed", "msg":
+                                     f"{label}: module after {i} transform(s) now has {len(mi.backends)} backends"})
+                    mp, _ = build(prog, case["seed"])
+                    pre = mp
+                    for t in chain[:i]:
+                        pre = apply(pre, t)
+                    d = same(call(mi, inp), call(pre, inp))
+                    if d:
+                        viol.append({"key": ident + "|intermediate_behaviour_changed", "msg": f"{label}: module after {i} transform(s): {d}"})
+                    steps += 2
                 # ---- the original and every intermediate are untouched and share no storage
                 if any(not torch.equal(snap_state[k], v) for k, v in m.state_dict().items()):
                     viol.append({"key": ident + "|original_state_changed", "msg": label})
